@@ -371,7 +371,7 @@ void harness(void)
 {
 	char *files[] = {"f1", NULL};
 	char content[16];
-	int i, k;
+	int i, k, setup = 0;
 	for (i = 0; i < MAXF; i++)
 		snprintf(fname[i], sizeof(fname[i]), "f%d", i + 1);
 	/* start the editor first (shared by all paths); the files get their symbolic first letters afterwards */
@@ -392,7 +392,10 @@ void harness(void)
 	mru_front(0);
 #ifdef PREOPEN
 	/* fill the buffer table: an edit in the first buffers, then open the rest */
-	if (symx_conc(symx_u8("dirtyfirst") & 1)) {
+	setup = symx_u8("setup");
+	symx_assume(setup < 3);
+	setup = symx_conc(setup);
+	if (setup == 1) {
 		step(1, 1);		/* 1d in f1, then leave it behind modified */
 		step(17, 2);
 	} else {
@@ -400,6 +403,13 @@ void harness(void)
 	}
 	for (i = 3; i <= PREOPEN; i++)
 		step(9, i);
+	/* setup 2: a jump by number and back, so that the most-recently-used order of the table is not the order
+	 * of the buffer numbers; the commands that follow are then the buffer commands only */
+	if (setup == 2) {
+		step(11, 1);
+		step(11, PREOPEN);
+		symx_reach("hopped");
+	}
 	symx_reach("table-full");
 #endif
 	for (k = 0; k < K; k++) {
@@ -407,6 +417,7 @@ void harness(void)
 		symx_assume(c < NMENU);
 #ifdef PREOPEN
 		symx_assume(N == 1 || N == 2 || N == PREOPEN - 1 || N == PREOPEN || N == PREOPEN + 1);
+		symx_assume(setup != 2 || c >= 9);
 #else
 		symx_assume(N >= 1 && N <= NFILES + 1 && N <= 4);
 #endif
